@@ -14,19 +14,30 @@ package actionlint
 //@     body_calls (*RuleBase).Errorf iff !meta.Inputs.has(range_k)
 //@     at_call (*RuleBase).Errorf: pos == range_v.Name.Pos
 //@   loop "range meta.Inputs" #2:
-//@     body_calls (*RuleBase).Errorf iff range_v.Required && !exec.Inputs.has(range_k)
+//@     invariant forall j :: 0 <= j && j < len(ids) ==> meta.Inputs.has(ids[j]) && folded(ids[j])
+//@   loop "range ids":
+//@     invariant forall j :: 0 <= j && j < len(ids) ==> meta.Inputs.has(ids[j]) && folded(ids[j])
+//@     body_calls (*RuleBase).Errorf iff meta.Inputs[id].Required && !exec.Inputs.has(id)
 //@     at_call (*RuleBase).Errorf: pos == exec.Uses.Pos
+//@   loop "range meta.Inputs" #3:
+//@     invariant forall j :: 0 <= j && j < len(ids) ==> meta.Inputs.has(ids[j]) && folded(ids[j])
 
 //@ func (*RuleWorkflowCall).checkWorkflowCallUsesLocal
 //@   props C14
 //@   anchor
 //@   loop "range m.Inputs":
-//@     body_calls (*RuleBase).Errorf iff range_v != nil && range_v.Required && !call.Inputs.has(range_k)
+//@     invariant forall j :: 0 <= j && j < len(ids) ==> m.Inputs.has(ids[j]) && folded(ids[j])
+//@   loop "range ids":
+//@     invariant forall j :: 0 <= j && j < len(ids) ==> m.Inputs.has(ids[j]) && folded(ids[j])
+//@     body_calls (*RuleBase).Errorf iff m.Inputs[n] != nil && m.Inputs[n].Required && !call.Inputs.has(n)
 //@   loop "range call.Inputs":
 //@     body_calls (*RuleBase).Errorf iff !m.Inputs.has(range_k)
 //@     at_call (*RuleBase).Errorf: pos == range_v.Name.Pos
 //@   loop "range m.Secrets":
-//@     body_calls (*RuleBase).Errorf iff range_v.Required && !call.Secrets.has(range_k)
+//@     invariant forall j :: 0 <= j && j < len(ids) ==> m.Secrets.has(ids[j]) && folded(ids[j])
+//@   loop "range ids" #2:
+//@     invariant forall j :: 0 <= j && j < len(ids) ==> m.Secrets.has(ids[j]) && folded(ids[j])
+//@     body_calls (*RuleBase).Errorf iff m.Secrets[n].Required && !call.Secrets.has(n)
 //@   loop "range call.Secrets":
 //@     body_calls (*RuleBase).Errorf iff !m.Secrets.has(range_k)
 //@     at_call (*RuleBase).Errorf: pos == range_v.Name.Pos
